@@ -219,7 +219,16 @@ func (r *Runner) Do(i int) (*Mismatch, error) {
 	p := r.P
 	switch s.Op {
 	case "put":
-		if err := r.Eng.Put(p.Keys[s.K], s.V.Bytes()); err != nil {
+		k, v := p.Keys[s.K], s.V.Bytes()
+		if i%2 == 1 && v != nil {
+			// like a caller that carves key and value out of one request buffer:
+			// adjacent sub-slices of one arena (the key's capacity extends over the value)
+			arena := make([]byte, len(k)+len(v)+16)
+			copy(arena, k)
+			copy(arena[len(k):], v)
+			k, v = arena[:len(k)], arena[len(k):len(k)+len(v)]
+		}
+		if err := r.Eng.Put(k, v); err != nil {
 			r.WriteErrors++
 			return nil, fmt.Errorf("%w: put: %v", ErrWrite, err)
 		}
